@@ -31,6 +31,25 @@ def _rhs_of(p):
     return rhs
 
 
+def term_spelling(term):
+    import re
+    from calmjs.parse.lexers.es5 import Lexer
+    kw = {v: k for k, v in Lexer.keywords_dict.items()}
+    if term in kw:
+        return kw[term]
+    if term == 'AUTOSEMI':
+        return ';'
+    if term in ('GETPROP', 'SETPROP'):
+        return term[:3].lower()
+    pat = getattr(Lexer, 't_' + term, None)
+    if not isinstance(pat, str) or term in ('NUMBER', 'LINE_COMMENT', 'BLOCK_COMMENT', 'LINE_TERMINATOR'):
+        return ''
+    text = re.sub(r'\\(.)', r'\1', pat)
+    if re.fullmatch(pat, text) and len(text) <= 4:
+        return text
+    return ''
+
+
 def snapshot(parser_obj):
     lr = parser_obj.parser
     prods = []
@@ -83,6 +102,8 @@ def emit(ns, snap, terms, nonterms):
     w('def terminals : List String := %s' % lean_list([lean_str(t) for t in terms]))
     w('def nonterminals : List String := %s' % lean_list([lean_str(t) for t in nonterms]))
     w('def numTerminals : Nat := %d' % nT)
+    w('/-- fixed spelling of a terminal (keywords, punctuators, AUTOSEMI); "" for ID/NUMBER/STRING/REGEX/$end/error/comments -/')
+    w('def termSpelling : List String := %s' % lean_list([lean_str(term_spelling(t)) for t in terms]))
     prods = snap['prods']
     # productions in chunks
     CH = 50
@@ -213,6 +234,17 @@ def emit_cert(snap, terms, nonterms):
         out.append('def %s : List (List Nat) := %s' % (nm, lean_list([lean_list([str(x) for x in r]) for r in cert[c:c + CH]])))
     out.append('def cert : List (List Nat) := %s' % ' ++ '.join(names))
     out.append('def acc : List Nat := %s' % lean_list([str(x) for x in acc]))
+    # nullable nonterminals (certificate; Lean checks the closure conditions it needs)
+    nonterms_set = set(nonterms)
+    nullable = set()
+    changed = True
+    while changed:
+        changed = False
+        for name, rhs, _ in snap['prods'][1:]:
+            if name not in nullable and all(x in nullable for x in rhs):
+                nullable.add(name)
+                changed = True
+    out.append('def nullable : List Nat := %s' % lean_list([str(nonterms.index(n)) for n in sorted(nullable)]))
     out.append('\nend CalmVerif.Gen.Tables.Cert\n')
     return '\n'.join(out)
 
